@@ -133,6 +133,7 @@ PROPS["C13"] = {"units": [
 PROPS["C17"] = {"units": [
     plain_unit("regress", "ctxio", "^TestRegressC17", overlay="full"),
     rapid_unit("schedules", "ctxio", "^TestC17Schedules$", 1200, 16 * 10000, overlay="full"),
+    rapid_unit("free-running", "ctxio", "^TestC17FreeRunning$", 400, 16 * 3000, overlay="full"),
 ]}
 
 PROPS["C12"] = {"units": [
